@@ -734,6 +734,9 @@ def c12(tier):
     for sq, inh, evt, tt, t2 in (('NVKUYYYY', 0, 0, 2, 255), ('NVKUYYG', 0, 0, 2, 254), ('VKUNYYYG', 0, 0, 3, 254), ('NVKUYYYY', 0, 0, 254, 2),
                                  ('NGVKUYYY', 0, 0, 255, 1), ('NYVKUYYY', 0, 0, 2, 3), ('NVKUTTG', 0, 2, 1, 254)):
         out.append(tpdo_inst('aw_ab', sq, inh, evt, tt, type2=t2))
+    # remapping while OPERATIONAL: the object-to-TPDO links must follow the mapping in effect
+    for sq in ('NVMUOo', 'NVMUoO', 'NVUVUVUVMUo', 'VMUNOo', 'NVMUSNOo'):
+        out.append(tpdo_inst('aw_ab', sq, 0, 0, 254, vals=(2, 3, 2, 3, 2, 3, 2, 3, 2, 3, 2, 3)))
     for sq, inh, evt, tt in (('NGTTETT', 20, 0, 254), ('NGTTTETT', 20, 0, 254), ('NGTTVUG', 20, 0, 254), ('NGTTSNG', 20, 0, 254), ('NGTTGTTE', 20, 0, 254),
                              ('NGTTTGE', 20, 2, 254), ('NGTEGTT', 10, 0, 254)):
         out.append(tpdo_inst('aw_ab', sq, inh, evt, tt, vals=(2, 2, 2, 2, 2, 2, 2, 2, 2)))
